@@ -1,6 +1,7 @@
 #!/bin/bash
-# tools/run_plan.sh: thorough tier for the listed checks, then the quick tier with seeds 2 and 3 for all
+# tools/run_plan.sh [ids...]: quick tier with seeds 1-3 for all checks, then the thorough tier for the listed checks (default: all)
 cd "$(dirname "$0")/.."
-tools/run_all.sh thorough 1 "$@"
+tools/run_all.sh quick 1
 tools/run_all.sh quick 2
 tools/run_all.sh quick 3
+tools/run_all.sh thorough 1 "$@"
